@@ -34,10 +34,6 @@ Fixpoint bools_eqb (a b : list bool) : bool :=
   | _, _ => false
   end.
 
-(** write operations of a token stream: whitespace and names inside writeValue are written without
-    looking at the result; under the sticky error of bufio that cannot matter (JsonWProofs) *)
-Definition ops_of (ts : list jtok) : list wop := map (fun t => (render_tok t, negb (is_ws t))) ts.
-
 Definition classify (c : case) : verdict :=
   match c with
   | CWrite cfg ft it st err out =>
